@@ -232,6 +232,7 @@ func main() {
 	mode := flag.String("mode", "pipe", "")
 	n := flag.Int("n", 1000, "")
 	long := flag.Bool("long", false, "")
+	in := flag.String("in", "", "input file (qreplay: paths)")
 	ownPath := flag.String("own", "", "ownership trace (pool / object hooks)")
 	flag.Parse()
 	if *ownPath != "" {
@@ -254,6 +255,10 @@ func main() {
 		modeLife(*long)
 	case "dohcancel":
 		modeDohCancel(*n)
+	case "quic":
+		modeQuic(*n)
+	case "qreplay":
+		modeQReplay(*in, time.Duration(*n)*time.Millisecond)
 	default:
 		panic("unknown mode " + *mode)
 	}
